@@ -393,4 +393,175 @@ def componentOf (svc : String) : String :=
   if svc == "Cluster" then "c" else if svc == "PinTracker" then "tracker" else if svc == "IPFSConnector" then "ipfs"
   else if svc == "Consensus" then "consensus" else if svc == "PeerMonitor" then "monitor" else "?"
 
+/-! ## Round 8c: how the daemons assemble the REST API and the consensus component
+(cmd/ipfs-cluster-service/daemon.go, cmd/ipfs-cluster-follow/commands.go, api/rest/restapi.go) -/
+
+/-- the consensus condition a call site sits under: none, `GetConsensus() == <k>.ConfigKey()` (or `case <k>`), its negation
+    (`else` arm / `!=`), the `default` arm of a switch over the consensus -/
+inductive DGuard where
+  | always
+  | only (k : String)
+  | unless (k : String)
+  | other
+  deriving Repr, DecidableEq
+
+/-- does the guard let the site run when the configured consensus is `m` (`"raft"` | `"crdt"`) -/
+def DGuard.admits : DGuard → String → Bool
+  | .always, _ => true
+  | .only k, m => k == m
+  | .unless k, m => k != m
+  | .other, _ => false
+
+/-- the host argument of a REST constructor call -/
+inductive RHost where
+  | none      -- `nil`
+  | cluster   -- the host that is also handed to NewCluster: every swarm peer can open streams to it
+  | other
+  deriving Repr, DecidableEq
+
+structure RestSite where
+  dir : String
+  fn : String
+  ctor : String
+  host : RHost
+  guard : DGuard
+  deriving Repr, DecidableEq
+
+structure ConsSite where
+  dir : String
+  fn : String
+  ctor : String
+  guard : DGuard
+  deriving Repr, DecidableEq
+
+/-- where the consensus argument of a `NewCluster` call comes from -/
+inductive ConsSource where
+  | direct (ctor : String)   -- assigned from raft.NewConsensus / crdt.New in the same function
+  | via (fn : String)        -- assigned from a call of a function of the same package
+  | unknown
+  deriving Repr, DecidableEq
+
+structure ClusterSite where
+  dir : String
+  fn : String
+  source : ConsSource
+  deriving Repr, DecidableEq
+
+structure DaemonShape where
+  restSites : List RestSite
+  consSites : List ConsSite
+  clusterSites : List ClusterSite
+  /-- `NewAPI(ctx, cfg) = NewAPIWithHost(ctx, cfg, nil)` -/
+  newAPINilHost : Bool
+  /-- `NewAPIWithHost` stores its host parameter in `API.host` -/
+  storesHostParam : Bool
+  /-- setupLibp2p: `if len(api.config.Libp2pListenAddr) > 0 { … api.host = <a new libp2p host with the API's own key> }` -/
+  ownHostWhenAddr : Bool
+  /-- setupLibp2p: `if api.host == nil { return nil }` before the listener is made -/
+  noHostNoListener : Bool
+  /-- the host `gostream.Listen` is called on -/
+  listensOn : String
+  /-- any other assignment to a field `host` in api/rest -/
+  hostWriters : List String
+  /-- the http.Server's handler is built from `basicAuthHandler(cfg.BasicAuthCredentials, …)` -/
+  authWrapsHandler : Bool
+  /-- what serves the libp2p listener -/
+  libp2pServer : String
+  deriving Repr
+
+/-- the host a constructor call leaves in `API.host` -/
+def RestSite.given (sh : DaemonShape) (s : RestSite) : RHost :=
+  if s.ctor == "NewAPI" then (if sh.newAPINilHost then .none else .other)
+  else if s.ctor == "NewAPIWithHost" && sh.storesHostParam then s.host else .other
+
+/-- where the REST API's libp2p listener sits -/
+inductive Exposure where
+  | noListener
+  | ownHost      -- a separate libp2p host with the API's own key and listen address: an explicit operator choice
+  | clusterHost  -- the cluster's host: every peer of the swarm (everybody with the cluster secret) can open HTTP streams
+  | unknown
+  deriving Repr, DecidableEq
+
+/-- setupLibp2p, interpreted: `given` = API.host after the constructor, `addr` = is `libp2p_listen_multiaddress` configured -/
+def exposureOf (sh : DaemonShape) (given : RHost) (addr : Bool) : Exposure :=
+  if sh.listensOn != "api.host" || !sh.hostWriters.isEmpty then .unknown
+  else if addr then (if sh.ownHostWhenAddr then .ownHost else match given with
+    | .none => if sh.noHostNoListener then .noListener else .unknown
+    | .cluster => .clusterHost
+    | .other => .unknown)
+  else match given with
+    | .none => if sh.noHostNoListener then .noListener else .unknown
+    | .cluster => .clusterHost
+    | .other => .unknown
+
+def restSitesFor (sh : DaemonShape) (dir m : String) : List RestSite :=
+  sh.restSites.filter (fun s => s.dir == dir && s.guard.admits m)
+
+/-- the REST constructor call a daemon of directory `dir` makes when the configured consensus is `m`
+    (`none` unless exactly one site applies) -/
+def restSiteFor (sh : DaemonShape) (dir m : String) : Option RestSite :=
+  match restSitesFor sh dir m with
+  | [s] => some s
+  | _ => none
+
+/-- where the REST API of that daemon listens for libp2p streams -/
+def daemonExposure (sh : DaemonShape) (dir m : String) (addr : Bool) : Exposure :=
+  match restSiteFor sh dir m with
+  | some s => exposureOf sh (s.given sh) addr
+  | none => .unknown
+
+/-- the consensus component the daemon of `dir` hands to NewCluster when the configured consensus is `m` -/
+def daemonConsensus (sh : DaemonShape) (dir m : String) : Option String :=
+  match sh.clusterSites.filter (fun c => c.dir == dir) with
+  | [c] =>
+    let sites : List ConsSite := match c.source with
+      | .direct ctor => sh.consSites.filter (fun (s : ConsSite) => s.dir == dir && s.fn == c.fn && s.ctor == ctor && s.guard.admits m)
+      | .via fn => sh.consSites.filter (fun (s : ConsSite) => s.dir == dir && s.fn == fn && s.guard.admits m)
+      | .unknown => []
+    match sites with
+    | [s] => some s.ctor
+    | _ => none
+  | _ => none
+
+/-- can a peer that holds nothing but the cluster secret (it can connect to the cluster host, it has no credentials and is
+    not necessarily trusted) get a request to a REST route: only through a listener on the cluster host, and then only if
+    basic authentication is off (C11's `auth_gate`: with credentials configured every route answers 401 without them) -/
+def swarmPeerReachesRest (e : Exposure) (basicAuth : Bool) : Bool :=
+  e == .clusterHost && !basicAuth
+
+/-! ### metrics (monitor/pubsubmon): what an unvalidated metric can influence
+
+The metrics topic has no validator and `metric.Peer` comes from the payload, so every swarm peer - trusted or not - can put
+metrics under anybody's name into a peer's store. `MetricView` is what the allocator and the failure detector read. The
+authorization decision (`authorizeWith`) does not take it as an input; allocations do. -/
+
+/-- one metric as the store keeps it: claimed peer (payload), value, still valid -/
+structure Metric where
+  peer : Nat
+  value : Nat
+  valid : Bool
+  deriving Repr, DecidableEq
+
+/-- a peer state as far as C07 is concerned: the policy table, the trusted set, the metric store -/
+structure AuthState where
+  pol : Policy
+  trustedSet : List Nat
+  metrics : List Metric
+
+/-- an unauthenticated metric arrives (pubsubmon.logFromPubsub -> metrics.Store.Add): only the store changes -/
+def injectMetric (st : AuthState) (m : Metric) : AuthState := { st with metrics := m :: st.metrics }
+
+/-- the authorization of a remote call in that state -/
+def authorizeIn (cl : Closure) (st : AuthState) (caller : Nat) (ep : String) : Bool :=
+  authorizeWith cl st.pol (st.trustedSet.contains caller) ep
+
+/-- the candidates of an allocation (`allocate`: `monitor.LatestMetrics`): the peers with a valid metric, restricted to the
+    consensus peerset only when the monitor was given one (`peersF`: the service daemon passes `cons.Peers` in Raft mode and
+    nil in CRDT mode, ipfs-cluster-follow passes nil). There is NO restriction to trusted peers. -/
+def allocCandidates (peerset : Option (List Nat)) (st : AuthState) : List Nat :=
+  let l := (st.metrics.filter (·.valid)).map (·.peer)
+  match peerset with
+  | none => l
+  | some ps => l.filter ps.contains
+
 end CV.C07
